@@ -17,7 +17,7 @@ RULE = ("generated programs biased towards in-place mutators (categorize, tag, s
         "chunk_events_by_key, merge_events_by_keys), a third of them made to raise midway (unknown function after a "
         "mutating call, unknown bucket, wrong type), run through aw_query.query against a store of each backend "
         "holding three populated buckets, with windows of any UTC offset (whole data range, partial, zero-width, "
-        "outside all data, sub-second edges); before/after each query every bucket is dumped (events + metadata) and "
+        "outside all data, sub-second edges), with an occasional direct write to a bucket between two queries; before/after each query every bucket is dumped (events + metadata) and "
         "compared; every query_bucket / query_bucket_eventcount result recorded at the registry is compared with a "
         "direct windowed read / count of the same bucket over the query's own instants; non-trivial = the program "
         "calls a mutator on bucket data or fails; signature = (backend, set of built-ins called, outcome class, "
@@ -30,7 +30,7 @@ MUTATORS = {"categorize", "tag", "split_url_events", "period_union", "flood", "c
 
 
 def plan(tier):
-    return dict(workers=15, cases=36_000 if tier == "quick" else 900_000, time_s=45 if tier == "quick" else 900)
+    return dict(workers=15, cases=24_000 if tier == "quick" else 900_000, time_s=45 if tier == "quick" else 900)
 
 
 def setup(ctx):
@@ -92,7 +92,12 @@ def gen_case(rng, ctx):
         ws = lo + rng.randrange(span)
         we = ws + rng.choice([1, 999, 1000, 1500, 10**6 + 1])
         wcls = "sub-second"
-    return dict(prog=prog, ws=ws, wo=rand_offset(rng), we=we, eo=rand_offset(rng), wcls=wcls, fail=fail,
+    write = None
+    if rng.random() < 0.1:
+        # the store changes between two queries: nothing a query layer remembers may survive that
+        write = dict(bucket=rng.choice(qlang.BUCKETS), ts=lo + rng.randrange(span) // 1000 * 1000, dur=rng.randrange(0, 30) * 10**6,
+                     data={"app": "late", "title": "written between queries", "n": rng.randrange(10**6)})
+    return dict(prog=prog, ws=ws, wo=rand_offset(rng), we=we, eo=rand_offset(rng), wcls=wcls, fail=fail, write=write,
                 spacing_seed=rng.randrange(2**32), backend=_S["backend"], data_key=_S["key"][1])
 
 
@@ -102,6 +107,12 @@ def run_case(case, ctx):
     reg, ds, backend = _S["reg"], _S["st"].ds, _S["backend"]
     start, end = mk_dt(case["ws"], case["wo"]), mk_dt(case["we"], case["eo"])
     text = qlang.render_program(case["prog"], qlang.Spacing(random.Random(case["spacing_seed"])))
+    if case.get("write"):
+        w = case["write"]
+        from ..gen import mk_event
+        ds[w["bucket"]].insert(mk_event(dict(ts=w["ts"], dur=w["dur"], data=w["data"])))
+        _S["dump"] = dump_store(ds)
+        ctx.count("writes_between_queries")
     reg.reset()
     before = _S["dump"]
     outcome = "value"
